@@ -19,7 +19,7 @@
    every seed and every partitioning. *)
 From Coq Require Import List ZArith NArith Bool Permutation.
 From IB Require Import Combiners.Reservoir Proofs.Reservoir Proofs.ReservoirKeyed
-  Proofs.ReservoirNatural Proofs.ReservoirProps.
+  Proofs.ReservoirNatural Proofs.ReservoirBigK Proofs.ReservoirProps.
 Import ListNotations.
 
 (* ---------- the accumulator invariant is established by create, kept by add_input and merge ---------- *)
@@ -169,6 +169,41 @@ Example c14_map_order_irrelevant_ex :
 Proof.
   cbv zeta. split; [apply nodup_local; exact Z.eqb_spec|].
   split; [apply Permutation_rev|]. vm_compute. discriminate.
+Qed.
+
+(* ---------- "take everything" sizes: for every k larger than the input the sample is the same
+   list (all n elements, same order), whatever the partitioning; likewise per key.  (So
+   k = usize::MAX, 2^63, ... behave like k = n + 1; the correspondence runs the model with
+   min(k, n+1).) ---------- *)
+Theorem c14_large_k_irrelevant :
+  forall (T : Type) (k k' : nat) (seed : N) (parts : list (list T)),
+    length (concat parts) < k -> length (concat parts) < k' ->
+    sample_parts k' seed parts = sample_parts k seed parts.
+Proof. exact @sample_parts_big_k. Qed.
+
+Example c14_large_k_irrelevant_ex :
+  sample_parts 300 42%N [[1; 2]; [3; 4]]%Z = sample_parts 5 42%N [[1; 2]; [3; 4]]%Z /\
+  sample_parts 5 42%N [[1; 2]; [3; 4]]%Z = [1; 3; 2; 4]%Z.
+Proof.
+  split; [|vm_compute; reflexivity].
+  apply c14_large_k_irrelevant; apply PeanoNat.Nat.ltb_lt; reflexivity.
+Qed.
+
+Theorem c14_large_k_irrelevant_keyed :
+  forall (K T : Type) (keqb : K -> K -> bool),
+    (forall x y, reflect (x = y) (keqb x y)) ->
+    forall (k k' : nat) (seed : N) (parts : list (list (K * T))),
+      length (concat parts) < k -> length (concat parts) < k' ->
+      keyed_parts keqb k' seed parts = keyed_parts keqb k seed parts.
+Proof. exact @keyed_parts_big_k. Qed.
+
+Example c14_large_k_irrelevant_keyed_ex :
+  keyed_parts Z.eqb 9 3%N [[(1, 10); (2, 20)]; [(1, 11)]]%Z
+  = keyed_parts Z.eqb 4 3%N [[(1, 10); (2, 20)]; [(1, 11)]]%Z /\
+  keyed_parts Z.eqb 4 3%N [[(1, 10); (2, 20)]; [(1, 11)]]%Z = [(1, [10; 11]); (2, [20])]%Z.
+Proof.
+  split; [|vm_compute; reflexivity].
+  apply (c14_large_k_irrelevant_keyed Z Z Z.eqb Z.eqb_spec); apply PeanoNat.Nat.ltb_lt; reflexivity.
 Qed.
 
 (* ---------- reproducible: the sample is a function of (k, seed, partitioning).  (Functional
